@@ -67,6 +67,7 @@ def rect_case(mon, rng, label, order, m):
                 "slack": slack, "mode": mode}
         via = "dispatch" if rng.random() < 0.5 else "classmethod"
         mon.count("rect_events")
+        e0 = P.NATURAL_SOLVER_ERRORS[0]
         try:
             ans = call_real(order, P.mk_rect(lo1, hi1), P.mk_rect(l2, h2),
                             slack if sk == "zero" else np.asarray(slack), via)
@@ -74,7 +75,7 @@ def rect_case(mon, rng, label, order, m):
             mon.violation(P.crash_mechanism(e), f"is_covered raised {e!r}", case)
             continue
         h = case_hash("r", W, lo1, hi1, l2, h2, np.asarray(slack, float))
-        P.judge(mon, "C10", "rect.is_covered", ans, lo, hi, P.band("rect", mag), case, h,
+        P.judge(mon, "C10", "rect.is_covered", ans, lo, hi, P.band("rect", mag, fallback=P.NATURAL_SOLVER_ERRORS[0] > e0), case, h,
                 f"rect/{label}/{mode}/slack-{sk}")
         if hi - lo > 1e-7 * (1 + mag):
             mon.count("wide_sandwich")
@@ -114,6 +115,7 @@ def ell_case(mon, rng, label, order, m):
                 "a2": a2, "slack": slack, "mode": mode}
         via = "dispatch" if rng.random() < 0.5 else "classmethod"
         mon.count("ell_events")
+        e0 = P.NATURAL_SOLVER_ERRORS[0]
         try:
             ans = call_real(order, P.mk_ell(c1, S1, a1), P.mk_ell(cc2, S2, a2),
                             slack if sk != "vector" else np.asarray(slack), via)
@@ -121,7 +123,7 @@ def ell_case(mon, rng, label, order, m):
             mon.violation(P.crash_mechanism(e), f"is_covered raised {e!r}", case)
             continue
         h = case_hash("e", W, c1, S1, a1, cc2, S2, a2, np.asarray(slack, float))
-        tau_b = P.band("socp", mag)
+        tau_b = P.band("socp", mag, fallback=P.NATURAL_SOLVER_ERRORS[0] > e0)
         if hi - lo > tau_b:
             mon.count("wide_sandwich")
         P.judge(mon, "C10", "ell.is_covered", ans, lo, hi, tau_b, case, h, f"ell/{label}/{mode}/slack-{sk}")
